@@ -31,6 +31,7 @@ SYM = [
     ("def", "a", ""), ("def", "b", ""), ("def", "1", ""), ("def", "2", ""), ("def", "a", "q"), ("def", "b", "l"), ("def", "u", ""),
     ("ref", ["b", "a"]), ("ref", ["c", "a", "c"]), ("def", "c", ""),
     ("refd", ["a"]), ("refd", ["b", "a"]),  # references inside a directive body (rendered by a nested parse)
+    ("ref", ["A"]), ("def", "A", ""), ("ref", ["a", "A"]),  # labels are case-sensitive: [^A] is not [^a]
 ]
 SYM_SMALL = [0, 1, 2, 4, 6, 7, 8, 12, 13, 16]
 BULLETS = "-*+"
@@ -302,5 +303,5 @@ class SphinxFootnoteSystem(System):
 
 def systems(tier):
     if tier == "quick":
-        return [FootnoteSystem(tier, "arrangements", list(range(13)) + [16, 17], 3), FootnoteSystem(tier, "arrangements-deep", SYM_SMALL, 4), SphinxFootnoteSystem(tier)]
-    return [FootnoteSystem(tier, "arrangements", list(range(18)), 4), FootnoteSystem(tier, "arrangements-deep", SYM_SMALL, 6), SphinxFootnoteSystem(tier)]
+        return [FootnoteSystem(tier, "arrangements", list(range(13)) + [16, 17, 19, 20], 3), FootnoteSystem(tier, "arrangements-deep", SYM_SMALL, 4), SphinxFootnoteSystem(tier)]
+    return [FootnoteSystem(tier, "arrangements", list(range(len(SYM))), 4), FootnoteSystem(tier, "arrangements-deep", SYM_SMALL, 6), SphinxFootnoteSystem(tier)]
